@@ -240,6 +240,7 @@ type symExec struct {
 	inlineMemo      map[*types.Func]bool
 	assignCounts    map[types.Object]int
 	singletons      map[types.Object]bool
+	flagNames       map[types.Object]string
 	pinned          map[types.Object]bool // canonical names that value changes do not undo (loop counters)
 	inlineAll       bool
 	primitive       map[*types.Func]bool // never inlined: recorded as events
@@ -967,6 +968,44 @@ func (se *symExec) assignCount(obj types.Object) int {
 }
 
 // canon renders an expression with the handler's parameter names normalised.
+// flagName: a local boolean variable is shown as flag1, flag2, … by the order in which the boolean locals of its
+// function are declared, so that renaming it changes no row.
+func (se *symExec) flagName(obj types.Object) string {
+	v, ok := obj.(*types.Var)
+	if !ok || v.IsField() || v.Pkg() == nil || v.Parent() == nil || v.Parent() == v.Pkg().Scope() {
+		return ""
+	}
+	if b, ok := v.Type().Underlying().(*types.Basic); !ok || b.Kind() != types.Bool {
+		return ""
+	}
+	if se.flagNames == nil {
+		se.flagNames = map[types.Object]string{}
+		for _, f := range se.c.Files(se.p) {
+			for _, d := range f.Decls {
+				fd, ok := d.(*ast.FuncDecl)
+				if !ok || fd.Body == nil {
+					continue
+				}
+				k := 0
+				ast.Inspect(fd.Body, func(n ast.Node) bool {
+					id, ok := n.(*ast.Ident)
+					if !ok {
+						return true
+					}
+					if o, ok := se.info.Defs[id].(*types.Var); ok && o != nil && !o.IsField() {
+						if b, ok := o.Type().Underlying().(*types.Basic); ok && b.Kind() == types.Bool {
+							k++
+							se.flagNames[o] = fmt.Sprintf("flag%d", k)
+						}
+					}
+					return true
+				})
+			}
+		}
+	}
+	return se.flagNames[obj]
+}
+
 // enumConst: the first of the expressions that names a constant of a named (enumeration-like) type, as written.
 func (se *symExec) enumConst(es ...ast.Expr) string {
 	for _, e := range es {
@@ -1012,6 +1051,10 @@ func (se *symExec) canon(e ast.Expr) string {
 		if id, ok := n.(*ast.Ident); ok {
 			if nm, ok := se.params[se.info.Uses[id]]; ok && nm != id.Name {
 				repl[id.Name] = nm
+			} else if !ok {
+				if nm := se.flagName(se.info.Uses[id]); nm != "" {
+					repl[id.Name] = nm
+				}
 			}
 		}
 		return true
@@ -1431,6 +1474,10 @@ func (se *symExec) binop(x *ast.BinaryExpr, l, r val) val {
 			if r.lin.isConst() {
 				if s, ok := l.lin.singleSym(); ok {
 					return val{kind: vInt, lin: linSym(bitsSym(s, x.Op, r.lin.c))}
+				}
+				// (a - b) << k is (a - b) * 2**k
+				if x.Op == token.SHL && r.lin.c >= 0 && r.lin.c < 31 {
+					return val{kind: vInt, lin: l.lin.scale(1 << uint(r.lin.c))}
 				}
 			}
 		case token.EQL, token.NEQ, token.LSS, token.LEQ, token.GTR, token.GEQ:
